@@ -9,10 +9,10 @@
      retry.go      retryOption, backoffInterval
      middleware.go parseRequestHeader, parseRequestCookie, parseRequestURL (query merge
                    and path parameters), parseRequestBody (payload-forbid, client form merge,
-                   ordered + plain form encoding, content-type detection) - run
+                   ordered + plain form encoding, marshal bodies, content-type detection) - run
                    again on EVERY attempt
    Abstracted: the transport (an explicit per-attempt outcome list), http.DetectContentType
-   (a function argument), marshal bodies (SetBody with a struct/map: Go oracle only),
+   (a function argument), the JSON/XML marshal functions (the two renderings are data),
    url.QueryEscape / url.PathEscape (identity on the harness alphabet), multipart bodies
    (Model/RetryUpload.v), time.Sleep.  No proofs in this file. *)
 From ReqV Require Export Lib.Bytes.
@@ -104,24 +104,30 @@ Record rstate := mkR {
   r_attempt : Z;                      (* r.RetryAttempt *)
   r_path : bytes;                     (* path of RawURL, with {name} placeholders *)
   r_pparams : list (bytes * bytes);   (* r.PathParams *)
-  r_ordered : list (bytes * bytes)    (* r.OrderedFormData, as pairs *)
+  r_ordered : list (bytes * bytes);   (* r.OrderedFormData, as pairs *)
+  r_marshal : option (bytes * bytes)  (* r.marshalBody (SetBody with a struct / map / slice): its JSON
+                                         and its XML rendering *)
 }.
 
 Definition set_headers (s : rstate) (h : amap) : rstate :=
-  mkR (r_method s) (r_rawquery s) h (r_cookies s) (r_form s) (r_query s) (r_body s) (r_getbody s) (r_reader s) (r_unreplayable s) (r_attempt s) (r_path s) (r_pparams s) (r_ordered s).
+  mkR (r_method s) (r_rawquery s) h (r_cookies s) (r_form s) (r_query s) (r_body s) (r_getbody s) (r_reader s) (r_unreplayable s) (r_attempt s) (r_path s) (r_pparams s) (r_ordered s) (r_marshal s).
 Definition set_cookies (s : rstate) (c : list (bytes * bytes)) : rstate :=
-  mkR (r_method s) (r_rawquery s) (r_headers s) c (r_form s) (r_query s) (r_body s) (r_getbody s) (r_reader s) (r_unreplayable s) (r_attempt s) (r_path s) (r_pparams s) (r_ordered s).
+  mkR (r_method s) (r_rawquery s) (r_headers s) c (r_form s) (r_query s) (r_body s) (r_getbody s) (r_reader s) (r_unreplayable s) (r_attempt s) (r_path s) (r_pparams s) (r_ordered s) (r_marshal s).
 Definition set_form (s : rstate) (f : amap) : rstate :=
-  mkR (r_method s) (r_rawquery s) (r_headers s) (r_cookies s) f (r_query s) (r_body s) (r_getbody s) (r_reader s) (r_unreplayable s) (r_attempt s) (r_path s) (r_pparams s) (r_ordered s).
+  mkR (r_method s) (r_rawquery s) (r_headers s) (r_cookies s) f (r_query s) (r_body s) (r_getbody s) (r_reader s) (r_unreplayable s) (r_attempt s) (r_path s) (r_pparams s) (r_ordered s) (r_marshal s).
 Definition set_body (s : rstate) (b : option bytes) (g : getbody) : rstate :=
-  mkR (r_method s) (r_rawquery s) (r_headers s) (r_cookies s) (r_form s) (r_query s) b g (r_reader s) (r_unreplayable s) (r_attempt s) (r_path s) (r_pparams s) (r_ordered s).
+  mkR (r_method s) (r_rawquery s) (r_headers s) (r_cookies s) (r_form s) (r_query s) b g (r_reader s) (r_unreplayable s) (r_attempt s) (r_path s) (r_pparams s) (r_ordered s) (r_marshal s).
 Definition set_reader (s : rstate) (rd : bytes) : rstate :=
-  mkR (r_method s) (r_rawquery s) (r_headers s) (r_cookies s) (r_form s) (r_query s) (r_body s) (r_getbody s) rd (r_unreplayable s) (r_attempt s) (r_path s) (r_pparams s) (r_ordered s).
+  mkR (r_method s) (r_rawquery s) (r_headers s) (r_cookies s) (r_form s) (r_query s) (r_body s) (r_getbody s) rd (r_unreplayable s) (r_attempt s) (r_path s) (r_pparams s) (r_ordered s) (r_marshal s).
 Definition set_attempt (s : rstate) (a : Z) : rstate :=
-  mkR (r_method s) (r_rawquery s) (r_headers s) (r_cookies s) (r_form s) (r_query s) (r_body s) (r_getbody s) (r_reader s) (r_unreplayable s) a (r_path s) (r_pparams s) (r_ordered s).
+  mkR (r_method s) (r_rawquery s) (r_headers s) (r_cookies s) (r_form s) (r_query s) (r_body s) (r_getbody s) (r_reader s) (r_unreplayable s) a (r_path s) (r_pparams s) (r_ordered s) (r_marshal s).
+
+Definition set_marshal (s : rstate) (m : option (bytes * bytes)) : rstate :=
+  mkR (r_method s) (r_rawquery s) (r_headers s) (r_cookies s) (r_form s) (r_query s) (r_body s) (r_getbody s) (r_reader s) (r_unreplayable s) (r_attempt s) (r_path s) (r_pparams s) (r_ordered s) m.
 
 Definition content_type : bytes := bs "Content-Type".
 Definition form_content_type : bytes := bs "application/x-www-form-urlencoded".
+Definition json_content_type : bytes := bs "application/json; charset=utf-8".
 Definition m_get : bytes := bs "GET".
 Definition m_head : bytes := bs "HEAD".
 Definition m_options : bytes := bs "OPTIONS".
@@ -151,6 +157,13 @@ Definition add_values (data f : amap) : amap :=
 Definition payload_forbid (c : client) (m : bytes) : bool :=
   (bytes_eqb m m_get && negb (c_allow_get_payload c)) || bytes_eqb m m_head || bytes_eqb m m_options.
 
+(* strings.Contains *)
+Fixpoint contains (pat s : bytes) : bool :=
+  bytes_eqb (firstn (length pat) s) pat ||
+  match s with [] => false | _ :: s' => contains pat s' end.
+(* util.IsXMLType *)
+Definition is_xml_type (ct : bytes) : bool := contains (bs "xml") ct.
+
 Section Body.
 Variable detect : bytes -> bytes.   (* http.DetectContentType *)
 
@@ -167,6 +180,22 @@ Definition ordered_encode (od : list (bytes * bytes)) (form : amap) : bytes :=
   let f := encode_values form in
   if nonempty f then (if nonempty o then o ++ [amp] ++ f else f) else o.
 
+(* handleMarshalBody: the content type of the request, else of the client, decides between the
+   XML and the JSON rendering; without any, JSON with Content-Type set (SetBodyJsonBytes) *)
+Definition marshal_ct (c : client) (s : rstate) : bytes :=
+  if nonempty (hfirst content_type (r_headers s)) then hfirst content_type (r_headers s)
+  else hfirst content_type (c_headers c).
+Definition marshal_stage (c : client) (s : rstate) : rstate :=
+  match r_marshal s with
+  | None => s
+  | Some m =>
+      if nonempty (marshal_ct c s) then
+        (if is_xml_type (marshal_ct c s) then set_body s (Some (snd m)) (GBStatic (snd m))
+         else set_body s (Some (fst m)) (GBStatic (fst m)))
+      else set_body (set_headers s (hset content_type [json_content_type] (r_headers s)))
+                    (Some (fst m)) (GBStatic (fst m))
+  end.
+
 (* the tail of parseRequestBody: guess the content type of an in-memory body *)
 Definition detect_stage (c : client) (s : rstate) : rstate :=
   match r_body s with
@@ -178,7 +207,7 @@ Definition detect_stage (c : client) (s : rstate) : rstate :=
   end.
 
 Definition prep_body_gen (merge_always : bool) (c : client) (s : rstate) : rstate :=
-  if payload_forbid c (r_method s) then set_body s None GBNil
+  if payload_forbid c (r_method s) then set_marshal (set_body s None GBNil) None
   else
     let s1 := if nonempty (c_form c) && (merge_always || (r_attempt s <=? 0)%Z)
               then set_form s (add_values (c_form c) (r_form s)) else s in
@@ -188,7 +217,7 @@ Definition prep_body_gen (merge_always : bool) (c : client) (s : rstate) : rstat
     else if nonempty (r_form s1) then
       let enc := encode_values (r_form s1) in
       set_body (set_headers s1 (hset content_type [form_content_type] (r_headers s1))) (Some enc) (GBStatic enc)
-    else detect_stage c s1.
+    else detect_stage c (marshal_stage c s1).
 Definition prep_body := prep_body_gen false.
 
 (* one pass of client.beforeRequest: header, cookie, (url), body *)
